@@ -310,7 +310,21 @@ func ComplexArbitraryToFixedPointCRT(r *ring.Ring, values []*bignum.Complex, sca
 
 func BigFloatToFixedPointCRT(r *ring.Ring, values []*big.Float, scale *big.Float, coeffs [][]uint64) {
 
-	prec := values[0].Prec()
+	// Working precision: the precision of the first non-nil value
+	prec := uint(53)
+	for i := range values {
+		if values[i] != nil {
+			prec = values[i].Prec()
+			break
+		}
+	}
+
+	// Zeroes the coefficients that are not covered by values
+	for j := range coeffs[:r.Level()+1] {
+		for i := len(values); i < len(coeffs[j]); i++ {
+			coeffs[j][i] = 0
+		}
+	}
 
 	xFlo := bignum.NewFloat(0, prec)
 	xInt := new(big.Int)
